@@ -690,6 +690,7 @@ fn main() {
             let marks = format!("a{}", "\u{301}".repeat(*n - 1));
             let mut texts = texts;
             texts.extend([marks.clone(), format!("xy{marks}za")]);
+            texts.extend(tu_verif::enumerate::byte_aligned_texts(*n).into_iter().step_by(2));
             for sub in &subs {
                 for ign in [false, true] {
                     let items: Vec<Item> = texts.iter().filter_map(|s| {
